@@ -717,6 +717,7 @@ func c07Case(c *core.Ctx, idx int) {
 		c07YieldMode = 0
 		c07Sched = nil
 		rec.Count("blocked_worker_bypassed", s.Blocked)
+		rec.Count("idle_but_runnable_not_a_deadlock", s.Starved)
 		if !ok && s.Why == "watchdog" {
 			rec.Count("inconclusive_trials", 1)
 			return
@@ -829,6 +830,7 @@ func c07Systematic(c *core.Ctx, idx int) {
 		c07YieldMode = 0
 		c07Sched = nil
 		rec.Count("blocked_worker_bypassed", s.Blocked)
+		rec.Count("idle_but_runnable_not_a_deadlock", s.Starved)
 		if !ok && s.Why == "watchdog" {
 			rec.Count("inconclusive_trials", 1)
 			return s.Steps(), "", false
